@@ -58,6 +58,7 @@ func (w *Wrapper) ResolveStatusCode(err error) int {
 	return core.ResolveStatusCode(err, map[error]int{
 		didsubject.ErrSubjectNotFound:          http.StatusNotFound,
 		didsubject.ErrSubjectAlreadyExists:     http.StatusConflict,
+		didsubject.ErrPendingChange:            http.StatusConflict,
 		resolver.ErrNotFound:                   http.StatusNotFound,
 		resolver.ErrDIDNotManagedByThisNode:    http.StatusForbidden,
 		did.ErrInvalidDID:                      http.StatusBadRequest,
